@@ -112,6 +112,13 @@ def items(tier):
     if not q:     # (does not finish in the quick budget)
         out.append(dict(kind="history", id="n2-general-znone-cplx-span-real-rhs", n=2, mclass="general", zeros=[], hist="cplx-span",
                         tol=0, logical_dtype=True, timeout=900))
+    # initial guesses on a matrix with a decoupled dof (the stored vectors only cover the coupled dofs)
+    out.append(dict(kind="history", id="n3-general-z02201221-x0-tol0", n=3, mclass="general", zeros=[[0, 2], [2, 0], [1, 2], [2, 1]],
+                    hist=[["N", "new"], ["N", "newx0"], ["T", "newx0"]], tol=0, timeout=400))
+    # block right-hand sides with the default-like tolerance 1e-7 (per-column convergence decisions)
+    for hn in ("block-indep", "block2"):
+        out.append(dict(kind="history", id="n2-general-znone-%s-tol1e-7" % hn, n=2, mclass="general", zeros=[], hist=hn, tol="1e-7",
+                        timeout=400))
     # concrete regression items (real library, real dense LU): blocks with linearly dependent columns (defect D31)
     for mat in ("r3", "s3", "c3"):
         for case in ("dependent", "dependent-3", "sum-in-block", "zero-and-dependent"):
@@ -346,7 +353,10 @@ def scenario(V, P, cfg):
             oracles.add_candidate(xs)
             oracles.add_candidate(wrap(np.asarray(xs)).conj())
         before = inner.n_solve
-        x = w.solve(b.copy(), trans=trans) if x0 is None else w.solve(b.copy(), x0=x0, trans=trans)
+        b_in = b.copy()
+        x = w.solve(b_in, trans=trans) if x0 is None else w.solve(b_in, x0=x0, trans=trans)
+        if P is not None:
+            P.arrays_eq("step%d[%s,%s]:rhs-unchanged" % (k, trans, kind), np.asarray(b_in), np.asarray(b), kind="rhs-unchanged")
         called = inner.n_solve - before
         obs["x%d" % k] = x
         if np.ndim(b) == 1:
